@@ -142,7 +142,9 @@ def run_case(case, ctx):
                                         % (t, diff[:4], [h.get(k) for k in diff[:4]], [int(H[k][t]) for k in diff[:4]])})
                             break
                 GF = conv.grid_fields(src)
-                for k in sorted(set(int(k) for k in r.stored_header_keys)):
+                # (under heuristic detection outside its stated precondition - e.g. inline and crossline numbers agreeing on the first
+                # and on the last trace - stored arrays may legitimately be another field's: C04)
+                for k in (sorted(set(int(k) for k in r.stored_header_keys)) if exact else []):
                     got = np.asarray(r.get_tracefield_values(k))
                     ncmp += 1
                     if got.shape != (nI, nX) or not np.array_equal(got.reshape(-1).astype(np.int64), GF[k]):
